@@ -249,11 +249,12 @@ def wrapper_stub(dep, region=None, outside=None, inside=None):
             c = z3.And(*[vals["B"][j] == MU0 * vals["H"][j] + vals["J"][j] for j in range(3)],
                        *[vals["J"][j] == MU0 * vals["M"][j] for j in range(3)],
                        z3.Or(z3.And(*[vals["J"][j] == pol[j] for j in range(3)]), z3.And(*[vals["J"][j] == 0 for j in range(3)])))
-            Ctx.cur.pc.append(z3.Implies(z3.Not(reg), c))
+            # assumed callee contract: kept among the axioms (assumptions), not in the path condition (code-derived facts)
+            Ctx.cur.axioms.append(z3.Implies(z3.Not(reg), c))
             if outside is not None:
-                Ctx.cur.pc.append(z3.Implies(outside(a), z3.And(*[vals["J"][j] == 0 for j in range(3)])))
+                Ctx.cur.axioms.append(z3.Implies(outside(a), z3.And(*[vals["J"][j] == 0 for j in range(3)])))
             if inside is not None:
-                Ctx.cur.pc.append(z3.Implies(inside(a), z3.And(*[vals["J"][j] == pol[j] for j in range(3)])))
+                Ctx.cur.axioms.append(z3.Implies(inside(a), z3.And(*[vals["J"][j] == pol[j] for j in range(3)])))
             CALLEE_CONTRACTS.append((dep, reg))
             return G([_obj_terms(vals[field])], 0, tag)
 
@@ -357,8 +358,8 @@ def _seg_internal_region(a):
 
 _reg(Spec("CylinderSegment", "field_BH_cylinder_segment", "BHJM_cylinder_segment_internal",
           dict(observers=(3,), polarization=(3,), dimension=(5,)),
-          dict(BHJM_cylinder_segment=wrapper_stub("seg", segment_surface, segment_outside),
-               BHJM_magnet_cylinder=wrapper_stub("cyl", cylinder_edge, cylinder_outside, cylinder_inside)),
+          dict(BHJM_cylinder_segment=wrapper_stub("wseg", segment_surface, segment_outside),
+               BHJM_magnet_cylinder=wrapper_stub("wcyl", cylinder_edge, cylinder_outside, cylinder_inside)),
           "magnet", pre_seg, segment_full_shell_inside, segment_outside_dispatch, region={"segment-dispatch(callee regions)": _seg_internal_region},
           lengths=("observers", "dimension:0,1,2")))
 _reg(Spec("Tetrahedron", "field_BH_tetrahedron", "BHJM_magnet_tetrahedron",
